@@ -11,8 +11,15 @@
   `roundtripsizes <P> <sizes> [<id0>]`
       `ok` if the model reader parses the laid out chain back into the same events, else `fail`.
       (the model reader works byte by byte with list indexing: keep the total size small)
+  `ackplan <P> <sizes> <endID>`
+      the ACK plan (`collectFreePages` + head of `findNewStartPositions`) on the chain
+      `layout P 0 sizes` (zero-filled events, first id 0) for `endID` = id of the first event that
+      stays = number of acknowledged events.
+      Result: `<freed> <cleanAll true|false> <newHeadFirst>`; `newHeadFirst` is the `first` field of
+      the first kept page (the id of the new queue head), `-` if cleanAll or no page is left.
 -/
 import TxVerif.Model.PQLayout
+import TxVerif.Model.PQAck
 namespace TxVerif
 
 def parseSizes (s : String) : Option (List Nat) :=
@@ -45,6 +52,19 @@ def evalPQ (cmd : String) (args : List String) : Option String :=
       let (P, sz, id0) ← pqArgs args
       let evs := zeroEvents sz
       pure (if parseChain P (layout P id0 evs) evs.length == some evs then "ok" else "fail")
+  | "ackplan" =>
+      match args with
+      | [p, sizes, e] => do
+          let P ← p.toNat?; let sz ← parseSizes sizes; let endID ← e.toNat?
+          if P < 32 then none else
+          let pages := layout P 0 (zeroEvents sz)
+          let plan := ackPlan pages endID
+          let hd := if plan.2 then "-" else
+            match pages.drop plan.1 with
+            | [] => "-"
+            | k :: _ => toString k.first
+          pure s!"{plan.1} {plan.2} {hd}"
+      | _ => none
   | _ => none
 
 end TxVerif
